@@ -484,3 +484,391 @@ async fn standin_builder_tls_wiring() {
     }
     assert!(wrong.is_empty(), "TLS was configured, but https / wss traffic did not start with a TLS handshake:\n{}", wrong.join("\n"));
 }
+
+// =====================================================================================================================
+// unit `tlsfuture` (C12, C17): `tls::future::TlsConnectionFuture::poll` and `future::TransportBraidFuture::poll` - the two
+// connect futures that carry the TLS decision to the wire.  Scenarios through the public `TlsTransportWrapper` /
+// `TlsTransport` over the in-memory duplex transport with a SCRIPTED peer.  Observed: what the caller gets (a stream -
+// with or without a completed handshake -, which error variant, nothing, a panic) and every byte the peer received.
+// =====================================================================================================================
+mod tlsfuture {
+    use std::sync::Arc;
+    use std::time::Duration;
+
+    use futures_util::StreamExt as _;
+    use tokio::io::{AsyncReadExt as _, AsyncWriteExt as _};
+
+    use super::{parts_for, TlsTransportWrapper};
+    use crate::client::conn::transport::duplex::DuplexTransport;
+    use crate::client::conn::transport::{TlsConnectionError, TlsTransport};
+    use crate::fixtures;
+    use crate::info::HasTlsConnectionInfo as _;
+    use crate::stream::duplex::DuplexStream;
+
+    /// The fixture certificate (CN example.com, SAN example.com + example.org, issued by tests/minica) has a fixed
+    /// validity period (2023-12-28 .. 2026-01-27).  The scenarios are about names, not about dates: the client checks
+    /// the chain, the signatures and the NAME as usual, at a point in time inside the validity period.
+    #[derive(Debug)]
+    struct MidValidity;
+    impl rustls::time_provider::TimeProvider for MidValidity {
+        fn current_time(&self) -> Option<rustls::pki_types::UnixTime> {
+            // 2025-01-01T00:00:00Z
+            Some(rustls::pki_types::UnixTime::since_unix_epoch(Duration::from_secs(1_735_689_600)))
+        }
+    }
+    fn client_config() -> Arc<rustls::ClientConfig> {
+        let mut cfg = fixtures::tls_client_config();
+        cfg.time_provider = Arc::new(MidValidity);
+        Arc::new(cfg)
+    }
+
+    /// which public entry the request goes through
+    #[derive(Debug, Clone, Copy, PartialEq, Eq)]
+    enum Via {
+        /// `TlsTransportWrapper::call` -> `TlsConnectionFuture`
+        Wrapper,
+        /// `TlsTransport::with_tls(..)::call` -> `TransportBraidFuture` (Tls arm for https / wss, Plain arm otherwise)
+        Braid,
+    }
+
+    /// what the scripted peer does with the connection it accepts
+    #[derive(Debug, Clone, Copy, PartialEq, Eq)]
+    enum Peer {
+        /// the accepting side has gone away: the connect itself fails
+        Gone,
+        /// accept and close at once, before reading anything
+        CloseAtOnce,
+        /// read the first TLS record, then close
+        CloseAfterHello,
+        /// read the first TLS record, answer with bytes that are not TLS, keep reading until the client closes
+        Garbage,
+        /// read the first TLS record, answer with a well-formed TLS alert record (handshake_failure), keep reading
+        Alert,
+        /// a real TLS server with the fixture certificate (example.com / example.org)
+        Tls,
+        /// the same, but it does not touch the connection for the first 250 ms
+        TlsLate,
+        /// never answers (reads and discards)
+        Silent,
+    }
+
+    #[derive(Debug)]
+    enum Got {
+        /// the connect future resolved to a stream; `handshaken`: the TLS handshake had completed when it was handed out
+        /// (`tls_info()` is filled in by the handshake and by nothing else)
+        Stream { handshaken: bool },
+        Error(String),
+        /// still pending when the observation ended
+        Pending,
+        Panicked,
+    }
+
+    #[derive(Debug, Default)]
+    struct Seen {
+        /// every byte the peer received on the accepted connection (scripts that read raw bytes)
+        wire: Vec<u8>,
+        /// the server name the real TLS server was offered
+        sni: Option<String>,
+        /// the real TLS server completed its side of the handshake
+        server_handshake_ok: bool,
+        accepted: bool,
+    }
+
+    fn error_variant<E: std::fmt::Debug>(e: &TlsConnectionError<E>) -> String {
+        match e {
+            TlsConnectionError::Connection(e) => format!("Connection({e:?})"),
+            TlsConnectionError::Handshake(e) => format!("Handshake({e})"),
+            TlsConnectionError::NoDomain => "NoDomain".into(),
+            TlsConnectionError::InvalidDomain(d) => format!("InvalidDomain({d})"),
+            TlsConnectionError::TlsDisabled => "TlsDisabled".into(),
+            #[allow(unreachable_patterns)]
+            other => format!("{other:?}"),
+        }
+    }
+
+    /// the record types of a byte sequence that consists of complete TLS records and nothing else
+    fn tls_record_types(mut b: &[u8]) -> Result<Vec<u8>, String> {
+        let mut types = Vec::new();
+        while !b.is_empty() {
+            if b.len() < 5 {
+                return Err(format!("trailing bytes that are no TLS record header: {:02x?}", b));
+            }
+            let (ty, major, minor, len) = (b[0], b[1], b[2], u16::from_be_bytes([b[3], b[4]]) as usize);
+            if !(20..=23).contains(&ty) || major != 3 || minor > 4 || len > (1 << 14) + 256 {
+                return Err(format!("not a TLS record header: {:02x?} ({:?})", &b[..5], String::from_utf8_lossy(&b[..b.len().min(24)])));
+            }
+            if b.len() < 5 + len {
+                return Err(format!("truncated TLS record: header {:02x?}, {} of {} bytes", &b[..5], b.len() - 5, len));
+            }
+            types.push(ty);
+            b = &b[5 + len..];
+        }
+        Ok(types)
+    }
+
+    async fn read_one_record(io: &mut DuplexStream, wire: &mut Vec<u8>) {
+        let mut buf = [0u8; 4096];
+        loop {
+            if wire.len() >= 5 {
+                let len = u16::from_be_bytes([wire[3], wire[4]]) as usize;
+                if wire.len() >= 5 + len || wire[0] != 22 {
+                    return;
+                }
+            }
+            match tokio::time::timeout(Duration::from_millis(500), io.read(&mut buf)).await {
+                Ok(Ok(n)) if n > 0 => wire.extend_from_slice(&buf[..n]),
+                _ => return,
+            }
+        }
+    }
+    async fn read_until_closed(io: &mut DuplexStream, wire: &mut Vec<u8>, patience: Duration) {
+        let mut buf = [0u8; 4096];
+        loop {
+            match tokio::time::timeout(patience, io.read(&mut buf)).await {
+                Ok(Ok(n)) if n > 0 => wire.extend_from_slice(&buf[..n]),
+                _ => return,
+            }
+        }
+    }
+
+    /// one request through the real transport against a scripted peer
+    async fn connect(via: Via, uri: &str, peer: Peer, patience: Duration) -> (Got, Seen) {
+        fixtures::tls_install_default();
+        let (client, incoming) = crate::stream::duplex::pair();
+        let inner = DuplexTransport::new(16 * 1024, client);
+        let parts = parts_for(uri).expect(uri);
+
+        let caller = tokio::spawn(async move {
+            let res = match via {
+                Via::Wrapper => {
+                    let mut t = TlsTransportWrapper::new(inner, client_config());
+                    let fut = tower::Service::call(&mut t, parts);
+                    tokio::time::timeout(patience, fut).await
+                }
+                Via::Braid => {
+                    let mut t = TlsTransport::new(inner).with_tls(client_config());
+                    let fut = tower::Service::call(&mut t, parts);
+                    tokio::time::timeout(patience, fut).await
+                }
+            };
+            match res {
+                Err(_elapsed) => (Got::Pending, None),
+                // looked at BEFORE anything else touches the stream: the state in which the future handed it out
+                // (the stream itself is kept open until the peer script has finished)
+                Ok(Ok(stream)) => (Got::Stream { handshaken: stream.tls_info().is_some() }, Some(stream)),
+                Ok(Err(e)) => (Got::Error(error_variant(&e)), None),
+            }
+        });
+
+        let script = tokio::spawn(async move {
+            let mut seen = Seen::default();
+            if peer == Peer::Gone {
+                drop(incoming);
+                return seen;
+            }
+            let mut incoming = incoming.fuse();
+            let mut io = match tokio::time::timeout(Duration::from_millis(500), incoming.next()).await {
+                Ok(Some(Ok(io))) => io,
+                _ => return seen,
+            };
+            seen.accepted = true;
+            match peer {
+                Peer::Gone => unreachable!(),
+                Peer::CloseAtOnce => drop(io),
+                Peer::CloseAfterHello => {
+                    read_one_record(&mut io, &mut seen.wire).await;
+                    drop(io);
+                }
+                Peer::Garbage => {
+                    read_one_record(&mut io, &mut seen.wire).await;
+                    let _ = io.write_all(b"HTTP/1.1 400 Bad Request\r\ncontent-length: 0\r\n\r\n").await;
+                    let _ = io.flush().await;
+                    read_until_closed(&mut io, &mut seen.wire, Duration::from_millis(300)).await;
+                }
+                Peer::Alert => {
+                    read_one_record(&mut io, &mut seen.wire).await;
+                    // alert(21), TLS 1.2, length 2: fatal(2) handshake_failure(40)
+                    let _ = io.write_all(&[21, 3, 3, 0, 2, 2, 40]).await;
+                    let _ = io.flush().await;
+                    read_until_closed(&mut io, &mut seen.wire, Duration::from_millis(300)).await;
+                }
+                Peer::Silent => read_until_closed(&mut io, &mut seen.wire, Duration::from_millis(400)).await,
+                Peer::Tls | Peer::TlsLate => {
+                    if peer == Peer::TlsLate {
+                        tokio::time::sleep(Duration::from_millis(250)).await;
+                    }
+                    let acceptor = tokio_rustls::LazyConfigAcceptor::new(rustls::server::Acceptor::default(), io);
+                    if let Ok(Ok(start)) = tokio::time::timeout(Duration::from_millis(500), acceptor).await {
+                        seen.sni = start.client_hello().server_name().map(str::to_owned);
+                        let hs = start.into_stream(Arc::new(fixtures::tls_server_config()));
+                        if let Ok(Ok(_tls)) = tokio::time::timeout(Duration::from_millis(500), hs).await {
+                            seen.server_handshake_ok = true;
+                        }
+                    }
+                }
+            }
+            seen
+        });
+
+        let (got, keep_open) = match caller.await {
+            Err(e) if e.is_panic() => (Got::Panicked, None),
+            Err(e) => panic!("caller task: {e}"),
+            Ok(got) => got,
+        };
+        let seen = script.await.expect("peer task");
+        drop(keep_open);
+        println!("{via:?} {uri:32} peer={peer:?}: caller={got:?} accepted={} sni={:?} server_hs={} wire={} bytes", seen.accepted, seen.sni, seen.server_handshake_ok, seen.wire.len());
+        (got, seen)
+    }
+
+    const SHORT: Duration = Duration::from_millis(1500);
+
+    /// tf.handshake_result / tf.ok_only_after_handshake / bf.tls_passed_through / bf.tls_never_plain [C12]: a peer that does not
+    /// complete the TLS handshake (garbage, alert, close) never makes the caller see a stream - the caller gets a
+    /// `Handshake` error; and all the client ever wrote are TLS handshake / alert records (no application data, no plaintext).
+    #[tokio::test]
+    async fn tlsfuture_handshake_failure_is_an_error() {
+        let mut bad = Vec::new();
+        for via in [Via::Wrapper, Via::Braid] {
+            for uri in ["https://example.com/secret?token=hunter2", "wss://example.com:8443/chat"] {
+                for peer in [Peer::Garbage, Peer::Alert, Peer::CloseAfterHello, Peer::CloseAtOnce] {
+                    let (got, seen) = connect(via, uri, peer, SHORT).await;
+                    match &got {
+                        Got::Error(e) if e.starts_with("Handshake(") => {}
+                        other => bad.push(format!("{via:?} {uri} {peer:?}: expected a Handshake error, the caller got {other:?}")),
+                    }
+                    if !seen.accepted {
+                        bad.push(format!("{via:?} {uri} {peer:?}: nothing was dialled"));
+                    }
+                    match tls_record_types(&seen.wire) {
+                        Ok(types) => {
+                            if peer != Peer::CloseAtOnce && types.first() != Some(&22) {
+                                bad.push(format!("{via:?} {uri} {peer:?}: the first record is not a handshake record: {types:?}"));
+                            }
+                            if types.iter().any(|t| *t != 22 && *t != 21) {
+                                bad.push(format!("{via:?} {uri} {peer:?}: something other than handshake / alert records was written before the handshake completed: {types:?}"));
+                            }
+                        }
+                        Err(why) => bad.push(format!("{via:?} {uri} {peer:?}: the client wrote bytes that are no TLS records: {why}")),
+                    }
+                }
+            }
+        }
+        assert!(bad.is_empty(), "{}", bad.join("\n"));
+    }
+
+    /// tf.own_domain / tf.handshake_entered_for_own_domain / th.stream.tls_session [C12]: the name offered and the name the
+    /// certificate is checked against are the host of the request URI.  A server whose certificate is for another name is
+    /// refused (`Handshake` error, never a stream); the same server is accepted under the names of its certificate, and then
+    /// the stream is handed out with the handshake completed.
+    #[tokio::test]
+    async fn tlsfuture_certificate_for_another_name_is_refused() {
+        for via in [Via::Wrapper, Via::Braid] {
+            // control: the scenario is able to succeed
+            for (uri, name) in [("https://example.com/", "example.com"), ("wss://example.org:8443/x", "example.org")] {
+                let (got, seen) = connect(via, uri, Peer::Tls, SHORT).await;
+                assert!(matches!(got, Got::Stream { handshaken: true }), "{via:?} {uri}: expected a stream with a completed handshake, got {got:?}");
+                assert_eq!(seen.sni.as_deref(), Some(name), "{via:?} {uri}: server name offered");
+                assert!(seen.server_handshake_ok, "{via:?} {uri}");
+            }
+            for (uri, name) in [("https://other.example/", "other.example"), ("https://example.net:8443/", "example.net"), ("wss://localhost/", "localhost")] {
+                let (got, seen) = connect(via, uri, Peer::Tls, SHORT).await;
+                assert_eq!(seen.sni.as_deref(), Some(name), "{via:?} {uri}: server name offered");
+                match &got {
+                    Got::Error(e) if e.starts_with("Handshake(") => {
+                        assert!(e.contains("NotValidForName") || e.to_lowercase().contains("name"), "{via:?} {uri}: refused, but not because of the name: {e}");
+                    }
+                    other => panic!("{via:?} {uri}: the certificate is for example.com / example.org; expected a Handshake error, the caller got {other:?}"),
+                }
+            }
+        }
+    }
+
+    /// tf.ok_only_after_handshake / tf.stays_live / tf.connect_pending [C12,C17]: while the peer has not answered the future is
+    /// Pending (no stream, no error); polled on, the same future completes - with the handshake done.
+    #[tokio::test]
+    async fn tlsfuture_pending_until_the_handshake_completes() {
+        for via in [Via::Wrapper, Via::Braid] {
+            let (got, seen) = connect(via, "https://example.com/", Peer::Silent, Duration::from_millis(300)).await;
+            assert!(matches!(got, Got::Pending), "{via:?}: a silent peer: expected Pending, got {got:?}");
+            let types = tls_record_types(&seen.wire).unwrap_or_else(|why| panic!("{via:?}: not TLS records: {why}"));
+            assert_eq!(types, vec![22], "{via:?}: a silent peer is sent one ClientHello and nothing else");
+
+            let (got, seen) = connect(via, "https://example.com/", Peer::TlsLate, SHORT).await;
+            assert!(matches!(got, Got::Stream { handshaken: true }), "{via:?}: a late peer: expected a stream with a completed handshake, got {got:?}");
+            assert!(seen.server_handshake_ok && seen.sni.as_deref() == Some("example.com"), "{via:?}: {seen:?}");
+        }
+    }
+
+    /// tf.connect_error / bf.plain_result / bf.tls_passed_through [C12]: a failure of the underlying connect is reported as
+    /// `Connection(e)` - by the TLS future and by both arms of the braid future - and nothing is dialled.
+    #[tokio::test]
+    async fn tlsfuture_connect_failure_is_a_connection_error() {
+        for (via, uri) in [
+            (Via::Wrapper, "https://example.com/"),
+            (Via::Braid, "https://example.com/"),
+            (Via::Braid, "wss://example.com/"),
+            (Via::Braid, "http://example.com/"),
+            (Via::Braid, "ws://example.com:8080/"),
+        ] {
+            let (got, seen) = connect(via, uri, Peer::Gone, SHORT).await;
+            assert!(matches!(&got, Got::Error(e) if e.starts_with("Connection(")), "{via:?} {uri}: expected a Connection error, got {got:?}");
+            assert!(!seen.accepted);
+        }
+    }
+
+    /// bf.plain_result / th.stream.new_is_plain [C12]: the Plain arm hands the connected stream on WITHOUT tls and writes nothing;
+    /// bf.same_arm / bf.tls_never_plain: with the same transport an https request is never answered with such a stream.
+    #[tokio::test]
+    async fn tlsfuture_braid_arms_are_not_mixed_up() {
+        for uri in ["http://example.com/", "ws://example.com:8080/chat"] {
+            let (got, seen) = connect(Via::Braid, uri, Peer::Silent, SHORT).await;
+            assert!(matches!(got, Got::Stream { handshaken: false }), "{uri}: expected a stream without TLS, got {got:?}");
+            assert!(seen.accepted && seen.wire.is_empty(), "{uri}: connecting without TLS writes nothing: {:?}", String::from_utf8_lossy(&seen.wire));
+        }
+        for uri in ["https://example.com/", "wss://example.com:8080/chat"] {
+            let (got, _) = connect(Via::Braid, uri, Peer::Silent, Duration::from_millis(300)).await;
+            assert!(!matches!(got, Got::Stream { .. }), "{uri}: a stream was handed out although the peer never answered the ClientHello: {got:?}");
+            let (got, _) = connect(Via::Braid, uri, Peer::Tls, SHORT).await;
+            assert!(matches!(got, Got::Stream { handshaken: true }), "{uri}: {got:?}");
+        }
+    }
+
+    /// tf.stored_error / tf.error.state / bf.tls_passed_through [C12,C17]: an error found by `call` (no host / a host that is no
+    /// server name) comes out of the future unchanged, through both entries; nothing is dialled; polling does not panic.
+    #[tokio::test]
+    async fn tlsfuture_stored_error_is_returned_unchanged() {
+        for via in [Via::Wrapper, Via::Braid] {
+            let (got, seen) = connect(via, "https://a-.example/", Peer::Silent, SHORT).await;
+            assert!(matches!(&got, Got::Error(e) if e == "InvalidDomain(a-.example)"), "{via:?}: {got:?}");
+            assert!(!seen.accepted, "{via:?}: an unusable host must not be dialled");
+        }
+        // no host at all (only the wrapper can be asked: the braid needs a scheme to choose TLS)
+        fixtures::tls_install_default();
+        let (client, _incoming) = crate::stream::duplex::pair();
+        let mut t = TlsTransportWrapper::new(DuplexTransport::new(1024, client), client_config());
+        let parts = http::Request::builder().uri("/only/a/path").body(()).unwrap().into_parts().0;
+        let got = tokio::time::timeout(SHORT, tower::Service::call(&mut t, parts)).await.expect("resolves at once");
+        assert!(matches!(got, Err(TlsConnectionError::NoDomain)), "{:?}", got.map(|_| "a stream"));
+    }
+
+    /// tf.polled_live / tf.stays_live / tf.poll.no_panic / bf.* [C17]: polled by hand, one poll at a time, against every peer
+    /// script: no poll panics, a Ready result is the last one asked for, and a future that returned Pending is still usable.
+    #[tokio::test]
+    async fn tlsfuture_never_panics_when_polled_to_completion() {
+        for via in [Via::Wrapper, Via::Braid] {
+            for uri in ["https://example.com/", "https://other.example/", "https://a-.example/", "https://[::1]:8443/", "http://example.com/"] {
+                if via == Via::Wrapper && uri.starts_with("http://") {
+                    continue;
+                }
+                for peer in [Peer::Gone, Peer::CloseAtOnce, Peer::CloseAfterHello, Peer::Garbage, Peer::Alert, Peer::Tls, Peer::TlsLate] {
+                    let (got, _) = connect(via, uri, peer, SHORT).await;
+                    assert!(!matches!(got, Got::Panicked), "{via:?} {uri} {peer:?}: the connect future panicked");
+                    if let Got::Stream { handshaken } = got {
+                        assert_eq!(handshaken, uri.starts_with("https://"), "{via:?} {uri} {peer:?}: TLS state of the stream handed out");
+                    }
+                }
+            }
+        }
+    }
+}
